@@ -569,6 +569,87 @@ def _case(draw):
     return {'hiers': hiers, 'validators': validators, 'order': order, 'concurrent': concurrent, 'heal': draw(st.booleans())}
 
 
+def run_many(case):
+    """ONE validator instance sees MANY distinct certificates (more than any small cache holds), then is asked again about the
+    first ones: a valid packet of user 0 is still accepted, and a packet that names user 0's certificate but is signed with the
+    key of the last user is still refused."""
+    r = Result()
+    secv2.timestamp = lambda: 1_700_000_000_000
+    _reset_default_caches()
+    sim = AppSim('legacy')
+    sim.start()
+    try:
+        store = {}
+        face, loop = sim.face, sim.vl.loop
+        orig_send = face.send
+
+        def send(data):
+            orig_send(data)
+            w = bytes(data)
+            if net.outer_type(w) != 5:
+                return
+            try:
+                nm = tuple(P.strict_interest(w)['name'])
+            except T.Malformed:
+                return
+            cw = store.get(nm)
+            if cw is not None:
+                loop.call_soon(lambda: loop.create_task(sim.app.face.callback(6, cw)))
+        face.send = send
+        h = Hier({'depth': 0, 'keys': [case['anchor_key']], 'shared': True, 'constrained': False, 'ids': IDS, 'deviation': 'none',
+                  'link': 0}, 'M', store)
+        sch = schema_ast(1, True, False)
+        checker = Checker(compile_lvs(L.render(sch, 0)), {})
+        v = sim.vl.call(lvs_validator, checker, sim.app, h.anchor_wire)
+        n = case['n_users']
+        pool = [k for k in KEYPOOL if K.KEYS[k]['kind'] in ('ec', 'rsa')]
+        users = []
+        for i in range(n):
+            key = pool[(i + case['rot']) % len(pool)]
+            kname = [comp('site'), comp('l1'), comp(f'u{i}'), comp('KEY'), comp(f'k{i}')]
+            cname, cwire = h._issue(kname, 'Miss0', K.KEYS[key], case['anchor_key'], h.anchor_name, None)
+            store[tuple(cname)] = cwire
+            users.append((key, cname))
+
+        def packet(i, seq, sign_as=None):
+            key, cname = users[i]
+            nm = [comp('site'), comp('data'), comp(f'u{i}'), comp(f'd{seq}')]
+            return bytes(make_data(nm, MetaInfo(), b'x', _signer(users[sign_as][0] if sign_as is not None else key, cname)))
+        for i in range(n):
+            got = _validate(sim, v, packet(i, 0), r)
+            if got is None:
+                return r
+            if got is not True:
+                return r.bad('C14/many/rejects-valid-chain/first-round', f'user {i} of {n}')
+        last = n - 1
+        while users[last][0] == users[0][0]:
+            last -= 1
+        for i, sign_as, want, label in ((0, None, True, 'valid-again'), (0, last, False, 'names-user0-signed-by-last-user'),
+                                        (1, None, True, 'valid-again'), (last, None, True, 'valid-again')):
+            got = _validate(sim, v, packet(i, 1, sign_as), r)
+            if got is None:
+                return r
+            if got != want:
+                return r.bad(f'C14/many/{"accepts-invalid-chain" if got else "rejects-valid-chain"}/{label}',
+                             f'after {n} distinct certificates through one validator: user {i}, signed as {sign_as}')
+    finally:
+        try:
+            sim.finish()
+        finally:
+            sim.close()
+    r.key = (case['n_users'] // 8, case['anchor_key'])
+    r.classes = (f'users:{case["n_users"] // 8 * 8}+',)
+    return r
+
+
+def _many_case():
+    return st.fixed_dictionaries({'n_users': st.sampled_from([66, 65, 70, 130, 129, 33]), 'rot': st.integers(0, 6),
+                                  'anchor_key': st.sampled_from(['p256-0', 'p256-1', 'rsa1024-0'])})
+
+
 SUBCHECKS = {
+    'many-certificates': SubCheck(run_many, strategy=lambda tier: _many_case(), examples={'quick': 16, 'thorough': 80},
+                                  note='one validator instance validates packets of 33..130 users (one certificate each), then the '
+                                       'first users again and a cross-signed forgery'),
     'histories': SubCheck(run_case, strategy=lambda tier: _case(), examples={'quick': 500, 'thorough': 10000}),
 }
